@@ -157,6 +157,9 @@ func (s *c09) Gen(r *kit.Rng) (kit.Op, bool) {
 		if r.Chance(1, 5) {
 			return kit.Op{K: "load_populated", N: append(c09Shape(r), int64(r.Intn(5)), int64(r.U32()))}, true
 		}
+		if r.Chance(1, 12) {
+			return kit.Op{K: "load_nil"}, true // a handle that starts unloaded
+		}
 		return kit.Op{K: "load", N: c09Shape(r)}, true
 	}
 	for {
@@ -331,11 +334,18 @@ func (s *c09) noteInsert(item []byte) {
 }
 
 func (s *c09) Apply(o kit.Op) *kit.Violation {
-	if s.f == nil && o.K != "load" && o.K != "newfilter" && o.K != "load_populated" {
+	if s.f == nil && o.K != "load" && o.K != "newfilter" && o.K != "load_populated" && o.K != "load_nil" {
 		return nil // skipped: no filter yet (possible after shrinking)
 	}
 	isFault := false
 	switch o.K {
+	case "load_nil":
+		if s.f != nil {
+			return nil
+		}
+		s.f = bloom.LoadFilter(nil)
+		s.setCur(-1)
+		s.st.Probe("handle-created-unloaded")
 	case "load", "load_populated":
 		n, hf, tw, fl, ok := shapeOK(o)
 		if !ok {
